@@ -9,6 +9,7 @@ import Driver.Sim
 import Driver.SimX
 import Driver.Mem
 import Driver.FileIO
+import Driver.Safe
 import Driver.Det
 import Driver.Util
 import Driver.Listing
@@ -50,6 +51,14 @@ def dispatch (line : String) : String :=
   | "wr" :: args => Driver.FileIO.handleWr args
   | "s0" :: args => Driver.FileIO.handleS0 args
   | "rd" :: args => Driver.FileIO.handleRd args
+  | "srd" :: args => Driver.Safe.handleSrd args
+  | "snum" :: args => Driver.Safe.handleSnum args
+  | "saddr" :: args => Driver.Safe.handleSaddr args
+  | "srange" :: args => Driver.Safe.handleSrange args
+  | "swrite" :: args => Driver.Safe.handleSwrite args
+  | "sprint" :: args => Driver.Safe.handleSprint args
+  | "swalk" :: args => Driver.Safe.handleSwalk args
+  | "svalid" :: args => Driver.Safe.handleSvalid args
   | "det" :: args => Driver.Det.handle args
   | "detold" :: args => Driver.Det.handleBefore args
   | "util" :: args => Driver.Util.handle args
